@@ -442,6 +442,13 @@ fn sieve_block_poly(s: &ClSieve, pol: &Poly, a: &A, st: &mut sieve::Sieve) {
         if p >> 32 > 0 || q >> 32 > 0 {
             continue;
         }
+        // Cofactors below the large prime bound are assumed to be prime, but
+        // they can be composite when that bound exceeds B1^2 (for example the
+        // value A itself, whose factors are not reported by the sieve).
+        // Ideal decompositions must be exact: reject them.
+        if (p > 1 && !crate::isprime64(p)) || (q > 1 && !crate::isprime64(q)) {
+            continue;
+        }
         // Convert integer factors to ideal factors
         // product(ai^±1) = product(pi^ei)
         //
